@@ -38,4 +38,30 @@ CHECKS = {
     },
 }
 
+CHECKS["C01"] = {
+    "title": "Nodes evaluate at most once per cycle and only after their producers",
+    "level": "exploration",
+    "technique": "exhaustive bounded enumeration of wiring programs x insertion orders x tick histories on the real engine, "
+                 "checked by a static rank check, a lifecycle-observer monitor and a per-cycle reference interpreter",
+    "design_ref": "DESIGN.md 2/C01",
+    "parts": [{"name": "graphx", "exe": "c01_order", "sources": ["c01_order.cpp"], "shards": 16}],
+    "rule": "every canonical DAG program of <= N statements over {int source, bool source, 1/2/3-input compute, stateful accumulator, "
+            "to_tsl/to_tsb structural source + collection reader, if_then_else (REF), nested_<G> and inlined wire<G> of 4 bodies up to "
+            "nesting depth 2} in which every statement but the last is consumed; x EVERY insertion order of the statements (inputs not yet "
+            "wired go through delayed_binding); x every tick pattern of every source over T cycles (cycle-unique values); plus rings of 1..4 "
+            "nodes closed by delayed binding / rank dependency (must be rejected) or feedback (must run). non-trivial = a non-identity "
+            "insertion order together with >= 2 sources ticking in the same cycle.",
+    "bounds": {"quick": "N<=4 statements, <=2 sources, T=3 (T=2 for N=4), all 4!/3!/2! orders",
+               "thorough": "N<=5 statements, <=3 sources, T=3, all orders"},
+    "min_counters": {"quick": {"nontrivial": 10000, "graphx.cycle_cases": 20, "graphx.runs_with_nested_evaluations": 1000}},
+    "assumptions": COMMON_ASSUMPTIONS + [
+        "Programs larger than the bound, service/adaptor rank anchors and mesh are not explored.",
+        "The modified flag of an input that holds no value is not compared (outside C01's statement).",
+    ],
+    "level_text": "Complete enumeration of the bounded program x order x history space on the real wiring + runtime; each execution is "
+                  "compared with an independent per-cycle reference, and every compiled graph (incl. child graphs) is checked statically.",
+    "level_note": "Trusted: the reference interpreter in harness/gx.h (topological per-cycle evaluation) and the lifecycle observer callbacks "
+                  "as faithful reports of evaluation order.",
+}
+
 NOT_APPLICABLE = {}
